@@ -194,6 +194,15 @@ class DropletBase:
             self._data_array, other._data_array, rtol=0, atol=0, equal_nan=True
         )
 
+    def __getstate__(self):
+        # store the data as an array with a single item. This is necessary since
+        # `numpy.record` scalars restored by pickle cannot be modified in place.
+        return {"data": np.array(self.data).reshape(1)}
+
+    def __setstate__(self, state):
+        # restore the data as an item of a record array, which supports modifications
+        self.data = state["data"].view(np.recarray)[0]
+
     def check_data(self):
         """Method that checks the validity and consistency of self.data."""
 
